@@ -167,6 +167,39 @@ func genC18(cw *caseWriter, seed uint64, tier string) {
 			}
 			emitPath(cw, mk, "import", p, pick(r, vals))
 		}
+		if r.chance(1, 5) {
+			// a row that has been used before: read through paths, imported into at a path, grown, cloned — and then
+			// read (or imported into) again; the document handed to the model is the row as it stands after the earlier
+			// operations, so anything the row remembers from them beyond its content shows as a difference
+			q, v := pick(r, hand), pick(r, vals)
+			how := r.intn(5)
+			used := func() jsonline.Row {
+				row := mk()
+				guard(func() {
+					switch how {
+					case 0:
+						_, _ = row.FindValuesAtPath(p)
+						_, _ = row.GetValueAtPath(p)
+						_, _ = row.FindValuesAtPath(q)
+					case 1:
+						_ = row.ImportAtPath(q, v())
+					case 2:
+						_ = row.ImportAtPath(p, v())
+						_, _ = row.GetAtPath(p)
+					case 3:
+						row.Set("grown", v())
+						_ = row.ImportAtKey("a", v())
+					default:
+						row = jsonline.CloneRow(row)
+					}
+				})
+				return row
+			}
+			emitPath(cw, used, "get", p, nil)
+			emitPath(cw, used, "find", p, nil)
+			emitPath(cw, used, "find", q, nil)
+			emitPath(cw, used, "import", q, pick(r, vals))
+		}
 	}
 }
 
